@@ -100,6 +100,22 @@ func (c *localCache) Modify(ctx context.Context, name string, opts *Opts, dels [
 	//
 	var err error
 	for _, del := range dels {
+		switch opts.Store {
+		case cachepb.Store_CONFIG, cachepb.Store_STATE:
+			// the keys of these stores are the joined path elements and the cache deletes by byte prefix.
+			// To not delete siblings that just share a name prefix (e.g. eth1 & eth10), the exact key
+			// and the keys of the branch below are deleted separately.
+			err = c.c.DeleteValue(ctx, name, &cache.Opts{
+				Store: getStore(opts.Store),
+				Path:  [][]string{del},
+			})
+			if err != nil {
+				return err
+			}
+			if len(del) > 0 {
+				del = append(append(make([]string, 0, len(del)+1), del...), "")
+			}
+		}
 		err = c.c.DeletePrefix(ctx, name, &cache.Opts{
 			Store:    getStore(opts.Store),
 			Path:     [][]string{del}, // TODO:
